@@ -158,8 +158,9 @@ def gen(rng, k):
 
 
 def matcher_of(p):
+    kw = {k_: p[k_] for k_ in ("max_candidates", "min_candidates") if k_ in p}
     return fm.FullMatcher(tolerance=p["tolerance"], min_weight=0.1, min_match=p["min_match"], min_angle=p["min_angle"],
-                          min_points=p["min_points"], min_delta=p["min_delta"], max_delta=p["max_delta"])
+                          min_points=p["min_points"], min_delta=p["min_delta"], max_delta=p["max_delta"], **kw)
 
 
 def float_errors(pts, zero, a, b):
@@ -431,6 +432,22 @@ def search(ctx, boost=1, focus=()):
          "min_angle": float(np.pi / 10), "min_delta": 0.0, "max_delta": float("inf"), "min_points": 10, "cand": None}
     msgs = run_case("cloud", p)
     ctx.oracle_case("cloud", p, msgs, key=classify("cloud", p, msgs) if msgs else None, nontrivial=True)
+    # exactly `min_points` peaks (the boundary of "enough points to cluster": at most min_points peaks are matched directly with
+    # all pairwise vectors, whatever a clusterer would make of them): a noise-free 2 x 5 strip whose shortest difference vectors
+    # are all parallel, few candidates allowed
+    for k in range(4 * boost):
+        lb_ = float(rng.uniform(7, 10))
+        phi_ = float(rng.uniform(0, 2 * np.pi))
+        b_ = lb_ * np.array([np.sin(phi_), np.cos(phi_)])
+        a_ = float(rng.uniform(4.6, 6.0)) * lb_ * np.array([np.sin(phi_ + 1.5), np.cos(phi_ + 1.5)])
+        z_ = rng.uniform(100, 120, 2)
+        pts_ = np.array([z_ + i * a_ + j * b_ for i in (0, 1) for j in (0, 1, 2, 3, 4)])
+        p = {"pts": pts_, "elev": np.ones(10), "zero": z_, "kind": "clean", "true_a": a_, "true_b": b_, "tolerance": 2.0, "min_match": 3,
+             "min_angle": float(np.pi / 10), "min_delta": 0.0, "max_delta": float("inf"), "min_points": 10, "cand": None,
+             "max_candidates": [3, 4, 4, 7][k % 4]}
+        msgs = run_case("cloud", p)
+        ctx.oracle_case("cloud", p, msgs, key=classify("cloud", p, msgs) if msgs else None, nontrivial=True)
+        ctx.count("oracle_exactly_min_points")
     # lattices with vectors of very different length: uniform elevations, and elevations 0.5 .. 3 as for the other clean lattices
     for k in range((60 if ctx.tier == "thorough" else 16) * boost):
         p = unequal_lattice(rng, k, uniform=(k // 6) % 2 == 0)
